@@ -370,6 +370,61 @@ theorem finishOuter_mirrors (r : SOuter ν) (st : PState ν) (attrsVal : Option 
       obtain ⟨st', hs⟩ := finishChecked_ok _ _ _ _ _ _ _ h
       exact assemble_ok _ _ _ _ _ _ _ hs
 
+/-! ### the `ast::Generics` mirror -/
+
+theorem collectFirst_ok {β γ : Type} (f : β → Outcome γ) (xs : List β) (vs : List γ)
+    (h : collectFirst f xs = .ok vs) : xs.map f = vs.map Outcome.ok := by
+  induction xs generalizing vs with
+  | nil => simp [collectFirst] at h; subst h; rfl
+  | cons x rest ih =>
+      unfold collectFirst at h
+      cases hx : f x with
+      | ok v =>
+          rw [hx] at h
+          cases hr : collectFirst f rest with
+          | ok ws => rw [hr] at h; simp at h; subst h; simp [hx, ih ws hr]
+          | err e => rw [hr] at h; simp at h
+          | panic m => rw [hr] at h; simp at h
+      | err e => rw [hx] at h; simp at h
+      | panic m => rw [hx] at h; simp at h
+
+/-- a successful mirror has exactly one converted entry per input parameter, in source order, and
+    the where-clause of the input — whether or not there are parameters -/
+theorem genericsMirror_ok (wrap : Option (TypeParamD → Outcome Val)) (g : GenericsD) (v : Val)
+    (h : genericsMirror wrap g = .ok v) :
+    ∃ ps, v = .record "Generics" [("params", .list ps), ("where_clause", whereVal g)] ∧
+      g.params.map (gparamMirror wrap) = ps.map Outcome.ok ∧ ps.length = g.params.length := by
+  unfold genericsMirror at h
+  cases hc : collectFirst (gparamMirror wrap) g.params with
+  | ok ps =>
+      rw [hc] at h; simp at h
+      have hm := collectFirst_ok _ _ _ hc
+      exact ⟨ps, h.symm, hm, by simpa using (congrArg List.length hm).symm⟩
+  | err e => rw [hc] at h; simp at h
+  | panic m => rw [hc] at h; simp at h
+
+/-- the clone instance (`P = syn::GenericParam`) never fails and reproduces every parameter's tokens -/
+theorem genericsMirror_clone (g : GenericsD) :
+    ∃ ps, genericsMirror none g = .ok (.record "Generics" [("params", .list ps), ("where_clause", whereVal g)]) ∧
+      ps.length = g.params.length := by
+  have key : ∀ xs : List GParamD, ∃ ps, collectFirst (gparamMirror none) xs = .ok ps ∧ ps.length = xs.length := by
+    intro xs
+    induction xs with
+    | nil => exact ⟨[], rfl, rfl⟩
+    | cons x rest ih =>
+        obtain ⟨ps, hp, hl⟩ := ih
+        cases x with
+        | type t => exact ⟨.toks t.toks :: ps, by simp [collectFirst, gparamMirror, hp], by simp [hl]⟩
+        | lifetime s => exact ⟨.toks s :: ps, by simp [collectFirst, gparamMirror, hp], by simp [hl]⟩
+        | const s => exact ⟨.toks s :: ps, by simp [collectFirst, gparamMirror, hp], by simp [hl]⟩
+  obtain ⟨ps, hp, hl⟩ := key g.params
+  exact ⟨ps, by simp [genericsMirror, hp], hl⟩
+
+/-- a where-clause without a parameter list is mirrored too -/
+example : genericsMirror none { whereToks := "where String : Clone" } =
+    .ok (.record "Generics" [("params", .list []), ("where_clause", .some (.toks "where String : Clone"))]) := by
+  simp [genericsMirror, collectFirst, whereVal]
+
 /-! ### printing a converted field list -/
 
 theorem printFields_named (fields : List String) (h : fields ≠ []) :
